@@ -232,6 +232,14 @@ type C12ExitCase struct {
 	Lines   int    `json:"lines"`
 	EndBy   string `json:"end_by"`            // client exit-command
 	HoldMs  int    `json:"hold_ms,omitempty"` // idle time after the listener closed
+	// Silent: a TCP connection that never says anything is open when the
+	// listener closes (traffic in flight: the server's graceful stop waits for
+	// it for a few seconds after the shell has ended).
+	Silent bool `json:"silent,omitempty"`
+	// EarlyLines: lines the operator enters right after the notice that the
+	// shell is gone, i.e. possibly before the server has wound down; the
+	// program still exits at a later entered line at the latest.
+	EarlyLines int `json:"early_lines,omitempty"`
 }
 
 func runC12Exit(t testing.TB, c C12ExitCase) (key, what string) {
@@ -256,6 +264,14 @@ func runC12Exit(t testing.TB, c C12ExitCase) (key, what string) {
 	}
 	if !probe() {
 		return "listener-closed-early", "no shell yet, but the listener refuses connections"
+	}
+	if c.Silent {
+		sc, err := net.DialTimeout("tcp", addr, 2*time.Second)
+		if err != nil {
+			return "HARNESS", "silent connection: " + err.Error()
+		}
+		defer sc.Close()
+		coll("C12").Class("L4-silent-connection-open-when-listener-closes", 1)
 	}
 	var io *IOConn
 	var curl *exec.Cmd
@@ -327,6 +343,13 @@ func runC12Exit(t testing.TB, c C12ExitCase) (key, what string) {
 	// more (the terminal writer stops as soon as the server has finished, see
 	// DESIGN 8.6); then the only cue left is that the program does exit.
 	goneSeen := p.WaitOutput(8*time.Second, "Shell is gone")
+	if goneSeen && c.EarlyLines > 0 {
+		for i := 0; i < c.EarlyLines; i++ {
+			p.Type("\r")
+			time.Sleep(100 * time.Millisecond)
+		}
+		coll("C12").Class("L4-lines-entered-right-after-shell-gone", 1)
+	}
 	if !goneSeen {
 		for i := 0; i < 6; i++ {
 			if p.WaitExit(2 * time.Second) {
@@ -343,7 +366,22 @@ func runC12Exit(t testing.TB, c C12ExitCase) (key, what string) {
 		coll("C12").Class("L4-gone-notice-not-displayed-before-exit", 1)
 	}
 	// it exits by itself, at the next entered line at the latest
-	if !p.WaitExit(1500 * time.Millisecond) {
+	if (c.Silent || c.EarlyLines > 0) && !p.WaitExit(1500*time.Millisecond) {
+		// With traffic in flight the server's graceful stop may take seconds
+		// (net/http gives a connection that has not spoken yet 5 s); a line
+		// entered before it has finished does not end the program, the next
+		// one does.  "The next entered line" is taken as the next line entered
+		// once the program has wound down: lines keep coming, 2 s apart, and
+		// the program must exit by itself.
+		exited := false
+		for i := 0; i < 12 && !exited; i++ {
+			p.Type("\r")
+			exited = p.WaitExit(2 * time.Second)
+		}
+		if !exited {
+			return "did-not-exit-after-one-shell", fmt.Sprintf("the one shell has ended (silent connection: %v, %d lines entered right after the notice) and 12 more lines were entered over 24 s, but the program is still running; output tail %q", c.Silent, c.EarlyLines, clip(tailOf(p.Output(), 300), 300))
+		}
+	} else if !p.WaitExit(1500 * time.Millisecond) {
 		p.Type("\r")
 		if !p.WaitExit(10 * time.Second) {
 			p.Type("\r")
@@ -400,6 +438,8 @@ func TestC12Exit(t *testing.T) {
 			EndBy:   rapid.SampledFrom([]string{"client", "exit-command"}).Draw(rt, "endby"),
 			HoldMs:  rapid.SampledFrom([]int{0, 0, 0, 0, 300, 6500}).Draw(rt, "hold"),
 		}
+		c.Silent = rapid.IntRange(0, 2).Draw(rt, "silent") == 0
+		c.EarlyLines = rapid.SampledFrom([]int{0, 0, 1, 2, 3}).Draw(rt, "early")
 		canon, _ := json.Marshal(c)
 		cc.Case("L4"+string(canon), true, "L4-real-binary", "L4-arrival-"+c.Arrival)
 		k, w := runC12Exit(t, c)
